@@ -300,8 +300,15 @@ def run_harness(binp, driver, workdir, scheds=None, n=0, seed=1, shards=None, op
         if p.returncode != 0 or not os.path.exists(stf):
             stats["crashed_shards"] += 1
             log("[harness] shard failed rc=%s: %s\n%s" % (p.returncode, " ".join(cmd), out[-3000:]))
+            last = sanitize_trace(tf)
+            crash = library_panic(out)
+            if crash:
+                # a panic in a goroutine that the library itself created kills the process: an observation
+                # of real behaviour (the library panicked), attributed to the run after the last complete one
+                crash.update({"cmd": cmd[1:], "trace_file": tf, "run": (last + 1) if last is not None else int(cmd[cmd.index("-run0") + 1]) + 1})
+                stats.setdefault("crashes", []).append(crash)
             if os.path.exists(tf) and os.path.getsize(tf) > 0:
-                traces.append(tf)  # whatever was flushed is still validated
+                traces.append(tf)  # the complete runs that were flushed are still validated
             continue
         traces.append(tf)
         st = json.load(open(stf))
@@ -309,6 +316,47 @@ def run_harness(binp, driver, workdir, scheds=None, n=0, seed=1, shards=None, op
             stats[k] += st.get(k, 0)
         stats["samples"] += st.get("samples", [])[:1]
     return traces, stats
+
+
+def sanitize_trace(tf):
+    """After a crashed shard: cut the trace file back to its last complete run (last "end" event).
+    Returns the number of that run (None if there is none)."""
+    if not os.path.exists(tf):
+        return None
+    keep, last, pos = 0, None, 0
+    with open(tf, "rb") as f:
+        for line in f:
+            pos += len(line)
+            if not line.endswith(b"\n"):
+                break
+            if b'"ev":"end"' in line:
+                try:
+                    last = json.loads(line)["run"]
+                    keep = pos
+                except ValueError:
+                    break
+    with open(tf, "r+b") as f:
+        f.truncate(keep)
+    return last
+
+
+def library_panic(out):
+    """If the harness output shows a Go panic whose innermost non-runtime frame is library code, returns
+    {"panic": first line, "frame": function} (else None: a harness problem, not an observation)."""
+    m = re.search(r"^(panic: .*|fatal error: .*)$", out, re.M)
+    if not m:
+        return None
+    tail = out[m.start():]
+    g = re.search(r"^goroutine \d+ \[running[^\n]*\n((?:.+\n)+)", tail, re.M)
+    if not g:
+        return None
+    for fn in re.findall(r"^(\S+)\(", g.group(1), re.M):
+        if fn.startswith(("runtime.", "panic(", "runtime/", "internal/", "sync.", "sync/")):
+            continue
+        if fn.startswith("github.com/aperturerobotics/util/") and "/verifhook." not in fn:
+            return {"panic": m.group(1)[:200], "frame": fn[:200]}
+        return None
+    return None
 
 
 # --------------------------------------------------------------------------- trace validation
@@ -488,12 +536,15 @@ def standard_check(prop, tier, seed, fam):
         traces += t2
         for k in ("executions", "events", "steps", "bubble_deadlocks", "crashed_shards", "distinct_label_sequences"):
             st[k] += s2[k]
+        st.setdefault("crashes", []).extend(s2.get("crashes", []))
         st["samples"] += s2["samples"][:1]
     if st["executions"] == 0:
         raise Inconclusive("no executions were recorded")
     viol, consumed, total, tstates = validate_traces(wd, fam["specdirs"], fam["monitor"], traces, deque=fam.get("deque", False))
     if consumed != total:
         raise Inconclusive("trace not fully consumed: %d of %d" % (consumed, total))
+    for c in st.get("crashes", []):
+        viol.append({"names": ["Panic"], "run": c["run"], "seq": 0, "l": 0, "trace_file": c["trace_file"], "crash": c})
     mine, harness_err = [], []
     pof = fam["property_of"]
     for v in viol:
@@ -523,8 +574,11 @@ def standard_check(prop, tier, seed, fam):
     def replay(v):
         evs = extract_run(v["trace_file"], v["run"])
         end = next((e for e in evs if e["ev"] == "end"), {})
-        return {"driver": fam["driver"], "monitor": fam["monitor"], "specdirs": fam["specdirs"], "opt": fam.get("opt", ""), "deque": fam.get("deque", False),
-                "scenario": end.get("scenario"), "labels": end.get("labels"), "events": evs}
+        rec = {"driver": fam["driver"], "monitor": fam["monitor"], "specdirs": fam["specdirs"], "opt": fam.get("opt", ""), "deque": fam.get("deque", False),
+               "scenario": end.get("scenario"), "labels": end.get("labels"), "events": evs}
+        if v.get("crash"):
+            rec["crash"] = v["crash"]   # the process died: --replay runs the shard's command again
+        return rec
 
     cov = {
         "states": states, "transitions": trans,
